@@ -223,7 +223,8 @@ func (e errT) withOneField(g *gen) errT {
 	return e
 }
 
-var mediaTypes = []string{"application/problem+json", "application/vnd.api+json", "application/json", "text/plain", "application/xml", "Application/JSON"}
+var mediaTypes = []string{"application/problem+json", "application/vnd.api+json", "application/json", "text/plain", "application/xml", "Application/JSON",
+	"application/json; charset=utf-8", "application/problem+json;charset=utf-8", "application/vnd.api+json; ext=\"x\""}
 
 func (g *gen) fmt() fmtT {
 	r := g.r
@@ -249,6 +250,15 @@ func (g *gen) opts() []optT {
 	r := g.r
 	single := func() optT { f := g.fmt(); return optT{F: &f} }
 	multi := func() (optT, []string) {
+		if r.Chance(1, 3) {
+			// one of two house tables, configured again and again with different defaults
+			t := houseTables[r.Intn(len(houseTables))]
+			var keys []string
+			for _, e := range t {
+				keys = append(keys, e.MT)
+			}
+			return optT{IsM: true, M: t}, keys
+		}
 		n := r.Range(1, 3)
 		perm := append([]string(nil), mediaTypes...)
 		hx.Shuffle(r, perm)
@@ -299,6 +309,11 @@ func (g *gen) opts() []optT {
 		m, keys := multi()
 		return []optT{m, dflt(keys), single()}
 	}
+}
+
+var houseTables = [][]entryT{
+	{{"application/problem+json", fmtT{Kind: "rfc"}}, {"application/json", fmtT{Kind: "simple"}}, {"application/vnd.api+json", fmtT{Kind: "jsonapi"}}},
+	{{"application/json; charset=utf-8", fmtT{Kind: "simple"}}, {"application/problem+json", fmtT{Kind: "rfc", BaseURL: "https://api.example.com/problems"}}},
 }
 
 var ranges = []string{"application/problem+json", "application/vnd.api+json", "application/json", "text/plain", "application/xml",
@@ -365,6 +380,7 @@ func (g *gen) acase() acaseT {
 	// a guard that fails and then falls through to c.Next(); the router's other dispatch loop
 	k.NextAfterFail = r.Chance(1, 6)
 	k.NoCancelCheck = r.Chance(1, 5)
+	k.Prod = r.Chance(1, 4)
 	// a guard: c.Abort() first, then the error response
 	k.AbortFirst = r.Chance(1, 6)
 	// something had set a Content-Type before the error happened
